@@ -84,7 +84,9 @@ def check_exp_item(rec, lt, dtype, x, Xt, M, tag=""):
 
 def run_exp_case(rec, case):
     lt, dtype, shape, items = case["ltype"], case["dtype"], case["lshape"], case["items"]
-    x = tu.lie(lt, items, dtype, shape=shape)
+    x = tu.lie(lt, items, dtype, shape=shape, view=case.get("view"))
+    if case.get("view"):
+        rec.label("layout:" + ("contiguous" if x.tensor().is_contiguous() else "noncontiguous:" + str(case.get("view"))))
     with rec.sut("Exp"):
         X = pp.Exp(x) if case.get("fn", True) else x.Exp()
         M = X.matrix()
@@ -112,7 +114,7 @@ class Exp(Sub):
         def s(draw):
             lt = draw(st.sampled_from(R.ALGEBRAS))
             dtype = draw(st.sampled_from(gen.DTYPES))
-            shape = draw(gen.lshape(max_rank=2, extents=(1, 2, 3), max_items=4))
+            shape = draw(gen.lshape(max_rank=2, extents=(1, 2, 3), max_items=6))
             n = int(np.prod(shape)) if shape else 1
             items, regs = [], []
             for _ in range(n):
@@ -120,7 +122,7 @@ class Exp(Sub):
                 items.append(x)
                 regs.append(reg)
             return {"ltype": lt, "dtype": dtype, "lshape": shape, "items": items, "regs": regs,
-                    "fn": draw(st.booleans())}
+                    "fn": draw(st.booleans()), "view": draw(st.sampled_from(tu.VIEWS))}
         return s()
 
     def oracle(self, case, rec):
@@ -140,6 +142,94 @@ class Exp(Sub):
                 yield dict(case, lshape=[], items=[case["items"][i]], regs=[case["regs"][i]])
         if case["dtype"] == "float32":
             yield dict(case, dtype="float64")
+
+
+class Reuse(Sub):
+    """Exp of the SAME tensor object again after its data changed in place, and after the previously returned element was
+    overwritten: "for every x" includes an x that has a history.  (A result memoised on the object, an output buffer handed out
+    by reference, a cache keyed by shape / dtype only would all pass every single-call check - seed C01d.)"""
+    name = "reuse"
+    n = {"quick": 3000, "thorough": 60000}
+
+    def strategy(self, tier):
+        @st.composite
+        def s(draw):
+            lt = draw(st.sampled_from(R.ALGEBRAS))
+            dtype = draw(st.sampled_from(gen.DTYPES))
+            shape = draw(gen.lshape(max_rank=2, extents=(1, 2, 3), max_items=4))
+            n = int(np.prod(shape)) if shape else 1
+            a = [draw(gen.algebra(lt, dtype))[0] for _ in range(n)]
+            b = [draw(gen.algebra(lt, dtype))[0] for _ in range(n)]
+            return {"ltype": lt, "dtype": dtype, "lshape": shape, "items": a, "items2": b,
+                    "first": draw(st.sampled_from(("Exp", "pp.Exp", "matrix", "rotation"))),
+                    "mutate": draw(st.sampled_from(("copy_", "setitem", "alias_buffer", "mul_add_"))),
+                    "spoil": draw(st.sampled_from(("none", "zero_", "fill_")))}
+        return s()
+
+    def oracle(self, case, rec):
+        lt, dtype, shape = case["ltype"], case["dtype"], case["lshape"]
+        glt = R.GRP_OF[lt]
+        td = tu.TD[dtype]
+        buf = torch.tensor(case["items"], dtype=td).reshape(tuple(shape) + (R.ADIM[lt],))
+        x = pp.LieTensor(buf, ltype=tu.LT[lt])
+        new = torch.tensor(case["items2"], dtype=td).reshape(tuple(shape) + (R.ADIM[lt],))
+        rec.label(lt, dtype, "first:" + case["first"], "mutate:" + case["mutate"], "spoil:" + case["spoil"])
+        rec.nt((lt, dtype, case["first"], case["mutate"], case["spoil"], len(case["items"])))
+        md = 3 if lt == "so3" else 4
+
+        def judge(tag, items):
+            with rec.sut("Exp (%s)" % tag):
+                X = x.Exp()
+                M = X.matrix()
+            if not rec.check(isinstance(X, pp.LieTensor) and X.ltype == tu.LT[glt] and tuple(X.shape) == tuple(shape) + (R.GDIM[glt],),
+                             "reuse:type", "%s: Exp returned %s %s" % (tag, getattr(X, "ltype", None), tuple(getattr(X, "shape", ())))):
+                return None
+            Xn = tu.npy(X).reshape(-1, R.GDIM[glt]); Mn = tu.npy(M).reshape(-1, md, md)
+            for i, xi in enumerate(items):
+                check_exp_item(rec, lt, dtype, xi, Xn[i], Mn[i], tag="[%s] " % tag)
+            return X
+        with rec.sut("first use"):
+            if case["first"] == "Exp":
+                x.Exp()
+            elif case["first"] == "pp.Exp":
+                pp.Exp(x)
+            elif case["first"] == "matrix":
+                x.matrix()
+            else:
+                x.rotation()
+        X1 = judge("first call", case["items"])
+        if X1 is None or rec.fails:
+            return
+        # change the data of the same object in place
+        if case["mutate"] == "copy_":
+            x.tensor().copy_(new)
+        elif case["mutate"] == "setitem":
+            x[...] = new
+        elif case["mutate"] == "alias_buffer":
+            buf.copy_(new)                       # LieTensor(buf) aliases buf (documented torch.Tensor subclass semantics)
+        else:
+            x.tensor().mul_(0.0).add_(new)
+        now = tu.npy(x.tensor()).reshape(-1, R.ADIM[lt]).tolist()
+        if not rec.check(np.array_equal(np.array(now), tu.npy(new).reshape(-1, R.ADIM[lt])), "reuse:harness", "in-place update did not take"):
+            return
+        X2 = judge("after in-place change of x (%s)" % case["mutate"], now)
+        if X2 is None or rec.fails:
+            return
+        if case["spoil"] != "none":
+            with torch.no_grad():
+                if case["spoil"] == "zero_":
+                    X2.tensor().zero_()
+                else:
+                    X2.tensor().fill_(0.25)
+            judge("after overwriting the previously returned element (%s)" % case["spoil"], now)
+
+    def simplify(self, case):
+        if len(case["items"]) > 1:
+            yield dict(case, lshape=[], items=case["items"][:1], items2=case["items2"][:1])
+        if case["dtype"] == "float32":
+            yield dict(case, dtype="float64")
+        if case["spoil"] != "none":
+            yield dict(case, spoil="none")
 
 
 def _lattice(per_decade, lo=-30, hi=1):
@@ -186,7 +276,7 @@ class Grid(Sub):
             yield dict(case, lshape=[], items=[case["items"][i]])
 
 
-SUBS = [Exp(), Grid()]
+SUBS = [Exp(), Grid(), Reuse()]
 
 
 def selftest():
